@@ -440,6 +440,8 @@ def literals(F, fns):
                 ops = [r["op"]] if r.get("k") in ("use", "cast") else (r.get("ops", []) if r.get("k") == "agg" else [])
                 if not ops:
                     continue
+                if r.get("k") == "agg" and r.get("ak") == "array" and all(op_const(o) is not None for o in ops):
+                    continue            # a literal table: compared by content under `tables` (also behind a LazyLock)
                 if not st["p"]["p"] and _feeds_only_assert(b, st["p"]["l"]):
                     continue
                 for o in ops:
